@@ -307,3 +307,6 @@ Proof.
   - right. apply andb_prop in H. destruct H as [H H3]. apply andb_prop in H. destruct H as [H1 H2].
     rewrite Z.eqb_eq in H1, H2. rewrite Z.leb_le in H3. auto.
 Qed.
+
+Lemma standard_delimiters : SD1 = 16 /\ SD2 = 104 /\ SD3 = 162 /\ SD4 = 220 /\ ED = 22 /\ SC = 229.
+Proof. repeat split; reflexivity. Qed.
